@@ -317,10 +317,16 @@ Qed.
 
 Definition rs_cost (rs: option (option N)) : nat := match rs with None => 0 | Some _ => 2 end.
 
-(* what a call of the entry point guarantees: the same input, no octet given back, and - unless it was
-   re-entered after the header - at least one octet consumed *)
+(* what a call of the entry point guarantees: the same input and, when it begins an element, at least one
+   octet consumed; when it is re-entered after the header (the untagged CHOICE) no octet given back - except
+   that an untagged ANY re-reads the header of the element from the marked position, which the call that
+   began the element set: then it stops beyond that position *)
 Definition call_post (rs: option (option N)) (s: stream) (_: dval) (s': stream) : Prop :=
-  arrived s' = arrived s /\ rem s' <= rem s /\ (rs = None -> rem s' < rem s).
+  arrived s' = arrived s /\
+  match rs with
+  | None => rem s' < rem s
+  | Some _ => rem s' <= rem s \/ (mark s < pos s /\ rem s' < length (arrived s) - mark s)
+  end.
 
 Lemma match_eoo {X} (b: bytes) (A B: X) (P: X -> Prop) :
   P A -> P B -> P (match b with [0%N; 0%N] => A | _ => B end).
@@ -338,7 +344,7 @@ Section DecFuel.
   Lemma Hrec_none sp D ts ae sf s : sbound sp D -> 2 * rem s + 2 * D <= lf -> 1 <= lf -> wp (rec sp ts None ae sf) s (lt_ s).
   Proof.
     intros Hb Hf Hl. eapply wp_mono; [apply (Hrec sp D ts None ae sf s Hb); cbn [rs_cost]; lia|].
-    intros a s' (H1 & H2 & H3). split; [exact H1|exact (H3 eq_refl)].
+    intros a s' (H1 & H2). split; [exact H1|exact H2].
   Qed.
 
   Lemma sbound_leaf T : ty_depth T = 1 -> sbound (STy T) 1.
@@ -606,38 +612,54 @@ Section DecFuel.
     apply wp_lift_bind; [apply position_by_type_fuel|]. intros i. cbn [wp]. apply H.
   Qed.
 
-  Lemma wp_choice_loop T alts ts tagged D : mbound D (fields_tagmap true alts) ->
+  Lemma Hrec_some sp D ts len ae sf s : sbound sp D -> 2 * rem s + 2 * D + 2 <= lf ->
+    wp (rec sp ts (Some len) ae sf) s (P2 s).
+  Proof.
+    intros Hb Hf. eapply wp_mono; [apply (Hrec sp D ts (Some len) ae sf s Hb); cbn [rs_cost]; lia|].
+    intros a s' Hs'. exact Hs'.
+  Qed.
+
+  (* with the tag of the CHOICE itself on the wire: a loop over begun elements *)
+  Lemma wp_choice_loop_tagged T alts ts D : mbound D (fields_tagmap true alts) ->
     forall n cur s, rem s < n -> 2 * rem s + 2 * D + 2 <= lf ->
-    wp (choice_loop rec lf T alts ts tagged n cur) s (le_ s).
+    wp (choice_loop rec lf T alts ts true n cur) s (le_ s).
   Proof.
     intros Hm. induction n as [|n IH]; intros cur s Hn Hf; [lia|].
     cbn [choice_loop]. cbv zeta.
-    assert (Hcall: wp (if tagged then rec (SMap (fields_tagmap true alts)) [] None true false
-                       else rec (SMap (fields_tagmap true alts)) ts (Some None) false false) s
-                      (fun _ s1 => arrived s1 = arrived s /\ rem s1 <= rem s /\ (tagged = true -> rem s1 < rem s))).
-    { destruct tagged.
-      - eapply wp_mono; [apply (Hrec_none _ D); [exact Hm|lia|lia]|]. intros a s1 Hs1. crunch.
-      - eapply wp_mono; [apply (Hrec _ D); [exact Hm|cbn [rs_cost]; lia|lia]|]. intros a s1 (H1 & H2 & _).
-        split; [exact H1|]. split; [exact H2|discriminate]. }
-    eapply wp_bind_mono; [exact Hcall|]. intros d s1 (H1 & H2 & H3).
-    assert (Hk: wp (let! x := choice_place lf T alts d in
-                    if tagged then choice_loop rec lf T alts ts tagged n (Some x) else Ret x) s1 (le_ s)).
-    { apply wp_bind. apply wp_choice_place. intros x. destruct tagged.
-      - specialize (H3 eq_refl). eapply wp_mono; [apply IH; lia|]. intros a s2 Hs2. crunch.
-      - cbn [wp]. crunch. }
+    eapply wp_bind_mono; [apply (Hrec_none _ D); [exact Hm|lia|lia]|]. intros d s1 Hs1.
+    assert (Hk: wp (let! x := choice_place lf T alts d in choice_loop rec lf T alts ts true n (Some x)) s1 (le_ s)).
+    { apply wp_bind. apply wp_choice_place. intros x.
+      eapply wp_mono; [apply IH; crunch|]. intros a s2 Hs2. crunch. }
     destruct d as [Tc vc| |b| |]; try exact Hk.
     destruct cur; [cbn [wp]; crunch|wraise].
   Qed.
 
-  Lemma wp_dec_choice T alts ts len D s : mbound D (fields_tagmap true alts) -> 2 * rem s + 2 * D + 2 <= lf ->
-    wp (dec_choice rec lf T alts ts len) s (le_ s).
+  (* untagged: the one alternative, re-entered after the header *)
+  Lemma wp_choice_loop_untagged T alts ts D : mbound D (fields_tagmap true alts) ->
+    forall n cur s, rem s < n -> 2 * rem s + 2 * D + 2 <= lf ->
+    wp (choice_loop rec lf T alts ts false n cur) s (P2 s).
   Proof.
-    intros Hm Hf. unfold dec_choice. cbv zeta. destruct len as [l|]; [|apply (wp_choice_loop T alts ts _ D Hm); lia].
-    eapply wp_bind_mono.
-    - instantiate (1 := le_ s). destruct (tagset_eqb (tagset_of' T) ts).
-      + eapply wp_mono; [apply (Hrec_none _ D); [exact Hm|lia|lia]|]. intros a s1 Hs1. crunch.
-      + eapply wp_mono; [apply (Hrec _ D); [exact Hm|cbn [rs_cost]; lia|lia]|]. intros a s1 (H1 & H2 & _). split; assumption.
-    - intros d s1 Hs1. apply wp_choice_place. intros x. exact Hs1.
+    intros Hm n cur s Hn Hf. destruct n as [|n]; [lia|].
+    cbn [choice_loop]. cbv zeta.
+    eapply wp_bind_mono; [apply (Hrec_some _ D); [exact Hm|lia]|]. intros d s1 Hs1.
+    assert (Hk: wp (let! x := choice_place lf T alts d in Ret x) s1 (P2 s)).
+    { apply wp_bind. apply wp_choice_place. intros x. cbn [wp]. exact Hs1. }
+    destruct d as [Tc vc| |b| |]; try exact Hk.
+    destruct cur; [cbn [wp]; exact Hs1|wraise].
+  Qed.
+
+  Lemma wp_dec_choice T alts ts len D s : mbound D (fields_tagmap true alts) -> 2 * rem s + 2 * D + 2 <= lf ->
+    wp (dec_choice rec lf T alts ts len) s (P2 s).
+  Proof.
+    intros Hm Hf. unfold dec_choice. cbv zeta. destruct len as [l|].
+    - eapply wp_bind_mono.
+      + instantiate (1 := P2 s). destruct (tagset_eqb (tagset_of' T) ts).
+        * eapply wp_mono; [apply (Hrec_none _ D); [exact Hm|lia|lia]|]. intros a s1 Hs1. apply le_P2. crunch.
+        * apply (Hrec_some _ D); [exact Hm|lia].
+      + intros d s1 Hs1. apply wp_choice_place. intros x. exact Hs1.
+    - destruct (tagset_eqb (tagset_of' T) ts).
+      + eapply wp_mono; [apply (wp_choice_loop_tagged T alts ts D Hm); lia|]. intros a s'. apply le_P2.
+      + apply (wp_choice_loop_untagged T alts ts D Hm); lia.
   Qed.
 
   (* --- an explicit tag --- *)
@@ -699,7 +721,7 @@ Section DecFuel.
                          | None => Raise EUnmodelled
                          end) s (P2 s)).
     { destruct sp as [T|]; [|wraise]. cbn [obound] in Hb. pose proof (ty_depth_base T) as Hbase.
-      destruct (base_of T) as [| | | | | | | |n0|fs|fs|t0|t0|alts| |tg x|tg x] eqn:Eb; try wraise. apply wp_le_P2. destruct sfun; [apply wp_collector|].
+      destruct (base_of T) as [| | | | | | | |n0|fs|fs|t0|t0|alts| |tg x|tg x] eqn:Eb; try wraise. destruct sfun; [apply wp_le_P2; apply wp_collector|].
       apply (wp_dec_choice T alts ts len (D - 1)); [|lia].
       apply mbound_fields. intros a Ha. pose proof (depth_in_alts a alts Ha). cbn [ty_depth] in Hbase. lia. }
     destruct cd, len; try wraise; try exact Hconstr; try exact Hchoice;
@@ -785,26 +807,26 @@ Section DecFuel.
     wp (dec_body c rec lf sp acc rs ae sfun) s (call_post rs s).
   Proof.
     intros Hb Hf. unfold dec_body. cbv zeta.
-    assert (Hmain: forall s0, arrived s0 = arrived s -> pos s0 = pos s ->
-              wp (Mark (match rs with
-                        | Some len => dispatch c rec lf sp acc len sfun
-                        | None => let! t := read_tag lf in let! len := read_length c in dispatch c rec lf sp (t :: acc) len sfun
-                        end)) s0 (call_post rs s)).
-    { intros s0 Ha0 Hp0. cbn [wp]. destruct rs as [len|]; cbn [rs_cost] in Hf.
+    assert (Hmain: forall s0, arrived s0 = arrived s -> pos s0 = pos s -> mark s0 = mark s ->
+              wp (match rs with
+                  | Some len => dispatch c rec lf sp acc len sfun
+                  | None => Mark (let! t := read_tag lf in let! len := read_length c in dispatch c rec lf sp (t :: acc) len sfun)
+                  end) s0 (call_post rs s)).
+    { intros s0 Ha0 Hp0 Hm0. destruct rs as [len|]; cbn [rs_cost] in Hf.
       - eapply wp_mono; [apply (wp_dispatch sp D acc len sfun _ Hb); crunch|].
-        intros a s' Hs'. unfold call_post. crunch. discriminate.
-      - eapply wp_bind_mono; [apply wp_read_tag; crunch|]. intros t s1 Hs1.
+        intros a s' Hs'. unfold call_post, P2, rem in *. rewrite Ha0, Hp0, Hm0 in Hs'. exact Hs'.
+      - cbn [wp]. eapply wp_bind_mono; [apply wp_read_tag; crunch|]. intros t s1 Hs1.
         eapply wp_bind_mono; [apply wp_read_length|]. intros len s2 Hs2.
         unfold fwd in *.
         eapply wp_mono; [apply (wp_dispatch sp D (t :: acc) len sfun _ Hb); crunch|].
         intros a s' Hs'. unfold call_post. crunch. }
     destruct (ae && support_indef c)%bool; [|apply Hmain; reflexivity].
     apply wp_readN_bind. intros b s1 Ha. apply match_eoo.
-    - cbn [wp]. unfold call_post. crunch.
-    - change (wp (Mark (match rs with
-                        | Some len => dispatch c rec lf sp acc len sfun
-                        | None => let! t := read_tag lf in let! len := read_length c in dispatch c rec lf sp (t :: acc) len sfun
-                        end)) (setpos s1 (pos s1 - 2)) (call_post rs s)).
+    - cbn [wp]. unfold call_post. destruct rs; crunch.
+    - change (wp (match rs with
+                  | Some len => dispatch c rec lf sp acc len sfun
+                  | None => Mark (let! t := read_tag lf in let! len := read_length c in dispatch c rec lf sp (t :: acc) len sfun)
+                  end) (setpos s1 (pos s1 - 2)) (call_post rs s)).
       apply Hmain; crunch.
   Qed.
 End DecFuel.
@@ -846,7 +868,7 @@ Proof.
                  ltac:(lia)))
     as (r & s' & Hr & Hpost).
   exists r, s'. split; [exact Hr|]. destruct r as [d|e]; [|exact Hpost].
-  destruct Hpost as (Ha & _ & Hlt). specialize (Hlt eq_refl). cbn [arrived] in Ha.
+  destruct Hpost as (Ha & Hlt). cbn [arrived] in Ha.
   split; [exact Ha|]. rewrite avail_len. unfold rem in *. cbn [arrived pos] in Hlt. lia.
 Qed.
 
